@@ -110,7 +110,9 @@ class Term(qcore.Query):
         field = ixreader.schema[fieldname]
         try:
             text = field.to_bytes(self.text)
-        except ValueError:
+        except (ValueError, ArithmeticError):
+            # (decimal.InvalidOperation from a fixed-point NUMERIC field is
+            # an ArithmeticError)
             return 0
 
         return ixreader.doc_frequency(fieldname, text)
@@ -124,7 +126,7 @@ class Term(qcore.Query):
         field = searcher.schema[fieldname]
         try:
             text = field.to_bytes(text)
-        except ValueError:
+        except (ValueError, ArithmeticError):
             return matching.NullMatcher()
 
         if (self.fieldname, text) in searcher.reader():
